@@ -1,4 +1,5 @@
 """C03 - operands resolve to the same constant, name or variable."""
+from vf import refworker as rw
 from vf.props.progbase import ProgProp
 
 
@@ -14,6 +15,40 @@ class C03(ProgProp):
             "distinct = (version, kind, opname, operand class)")
     assumptions = ["CPython's dis argval is ground truth; its UNKNOWN sentinel (3.11 KW_NAMES) is skipped",
                    "xdis spells 'not-in', 'is-not', 'exception-match' with hyphens: compared by cmp_op index"]
+
+    def fixed_cases(self, ctx):
+        from vf.props import c09
+        for name in sorted(c09.tables(rw.xd())):
+            yield {"k": "family", "table": name}
+
+    def judge(self, case, ctx):
+        if case.get("k") != "family":
+            return super().judge(case, ctx)
+        # versions nobody can run any more: the category sets that drive operand resolution, judged through the
+        # CPython of the same family (an opcode keeps its name only while it keeps its meaning)
+        from vf.props import c09
+        from vf.run import Result
+        res = Result()
+        x = rw.xd()
+        opc = c09.tables(x).get(case.get("table"))
+        vt = tuple(opc.version_tuple[:2]) if opc is not None and getattr(opc, "version_tuple", None) else None
+        fam = c09.family_reference(vt) if vt else None
+        if not fam:
+            res.reject = "version-has-its-own-interpreter-or-base-table"
+            return res
+        key = ("optab", fam)
+        if key not in ctx.cache:
+            ctx.cache[key] = ctx.pool.ref(fam).call("opcode_tables")
+        cats = ["hasconst", "hasname", "haslocal", "hasfree", "hascompare"]
+        for n, cat, a, b in c09.family_consistency(case["table"], opc, ctx.cache[key], cats):
+            res.fail("C03|family-category|%s|%s|%s" % (case["table"], cat, n), "%s: operand of %s %s resolved through the %s table; CPython %s (same opcode, same family) %s" % (
+                case["table"], n, "is" if a else "is not", cat[3:], fam, "resolves it so" if b else "does not"))
+        res.nontrivial = True
+        res.key = ["family", case["table"]]
+        res.evals = len(opc.opmap)
+        res.classes = ["source:family-consistency", "table:" + case["table"]]
+        res.sample = {"table": case["table"], "oracle": "same-named opcode has the same operand category as in CPython " + fam}
+        return res
 
     def classify(self, case, ref, x, c, res):
         keys = [[case["v"]] + list(k) for k in sorted(c.nt.get("argval", ()))]
